@@ -56,6 +56,9 @@ package core
 //@   requires n >= 0
 //@   requires !held(self.mu)
 //@   ensures !held(self.mu)
+//@   critical @fifo self.reserved != old(self.reserved) ==> old(len(self.waiters)) == 0 && self.reserved == old(self.reserved) + n
+//@   critical @queue len(self.waiters) == old(len(self.waiters)) || (self.reserved == old(self.reserved) && len(self.waiters) == old(len(self.waiters)) + 1 && self.waiters[len(self.waiters)-1].amount == n)
+//@   critical @noovertake forall j :: 0 <= j && j < old(len(self.waiters)) ==> self.waiters[j].amount == old(self.waiters[j].amount) && self.waiters[j].ready == old(self.waiters[j].ready)
 
 //@ func core.ResourceSemaphore.Release property C12
 //@   modifies held(self.mu), guarded(self.mu)
@@ -127,10 +130,16 @@ package core
 //@   ensures !held(self.lock)
 
 //@ func core.MaxJobsSemaphore.FindDone property C12
+//@   uses mdstate
 //@   requires !held(self.lock)
 //@   ensures !held(self.lock)
 //@   loop 1 invariant held(self.lock) && inv(self)
 //@   loop 2 invariant held(self.lock) && inv(self)
+//@   critical @keepslots forall m *core.Metadata :: old(has(self.running, m)) && (mdState(dom(m.contents)) == "running" || mdState(dom(m.contents)) == "queued") ==> has(self.running, m)
+//@   loop 1 invariant forall m *core.Metadata :: has(self.running, m) == atloop(has(self.running, m))
+//@   loop 1 invariant forall j :: 0 <= j && j < len(finished) ==> !((mdState(dom(finished[j].contents)) == "running" || mdState(dom(finished[j].contents)) == "queued"))
+//@   loop 2 invariant forall j :: 0 <= j && j < len(finished) ==> !((mdState(dom(finished[j].contents)) == "running" || mdState(dom(finished[j].contents)) == "queued"))
+//@   loop 2 invariant forall m *core.Metadata :: atloop(has(self.running, m)) && (mdState(dom(m.contents)) == "running" || mdState(dom(m.contents)) == "queued") ==> has(self.running, m)
 
 // ---------------------------------------------------------------- metadata state (C02, C06; used by C12 call sites)
 
